@@ -112,6 +112,11 @@ service Calc {
     i32 add(1: i32 a, 2: optional i32 b) throws (1: Oops oops)
     void ping()
     Point where(1: required Point origin)
+    // container / binary results (a result without a member is invalid) and
+    // parameters with declared defaults
+    list<i32> span(1: i32 lo, 2: i32 limit = 25, 3: optional Color tint = Color.GREEN)
+    binary fetch(1: string key = "k")
+    map<string, i32> tally()
 }
 
 // containers whose element / key / value type is a typedef of a container or
